@@ -149,7 +149,7 @@ fn spell(sp: &Sp) -> String {
     }
 }
 
-fn source_of(idx: usize, path: &[Id], m: &Module, probe: Option<&Sp>, state: bool) -> String {
+fn source_of(idx: usize, path: &[Id], m: &Module, probe: Option<&Sp>) -> String {
     let mut s = String::new();
     s.push_str("needs std.io\n");
     for i in &m.imports {
@@ -176,7 +176,13 @@ fn source_of(idx: usize, path: &[Id], m: &Module, probe: Option<&Sp>, state: boo
     for d in &m.defs {
         let v = format!("V:{}:{}", fid(path), nm(d.name));
         let p = if d.is_pub { "pub " } else { "" };
-        if is_fn(d.name) {
+        if d.name >= STATE0 {
+            if is_fn(d.name) {
+                writeln!(s, "{}fn {}() {{\n    {} = {} + 1\n    return {}\n}}", p, nm(d.name), nm(d.name + 1), nm(d.name + 1), nm(d.name + 1)).unwrap();
+            } else {
+                writeln!(s, "{}let mut {} = 0", p, nm(d.name)).unwrap();
+            }
+        } else if is_fn(d.name) {
             writeln!(s, "{}fn {}() {{ return \"{}\" }}", p, nm(d.name), v).unwrap();
         } else {
             writeln!(s, "{}let {} = \"{}\"", p, nm(d.name), v).unwrap();
@@ -186,10 +192,6 @@ fn source_of(idx: usize, path: &[Id], m: &Module, probe: Option<&Sp>, state: boo
             }
         }
     }
-    if state {
-        // mutable pub state (sessions): a counter only the module's own function advances; names are unique per file
-        writeln!(s, "pub let mut zc{} = 0\npub fn zb{}() {{\n    zc{} = zc{} + 1\n    return zc{}\n}}", idx, idx, idx, idx, idx).unwrap();
-    }
     if let Some(sp) = probe {
         s.push_str("io.println(\"P\")\n");
         writeln!(s, "io.println({})", spell(sp)).unwrap();
@@ -197,9 +199,11 @@ fn source_of(idx: usize, path: &[Id], m: &Module, probe: Option<&Sp>, state: boo
     s
 }
 
-/// in sessions every module carries mutable pub state
-fn has_state(c: &Case) -> bool {
-    !c.inputs.is_empty()
+/// mutable pub state (sessions): definitions named 400 + 2i (a function) and 401 + 2i (the counter it advances) are
+/// ordinary pub definitions of the model; their bodies are a counter instead of a constant
+const STATE0: Id = 400;
+fn state_fn(m: &Module) -> Option<Id> {
+    m.defs.iter().map(|d| d.name).find(|&n| n >= STATE0 && is_fn(n))
 }
 
 fn file_on_disk(root: &Path, path: &[Id]) -> PathBuf {
@@ -222,7 +226,7 @@ fn materialise(root: &Path, c: &Case, probe: Option<&(Vec<Id>, Sp)>) {
             Some((pf, sp)) if pf == path => Some(sp),
             _ => None,
         };
-        std::fs::write(&f, source_of(idx, path, m, pr, has_state(c))).unwrap();
+        std::fs::write(&f, source_of(idx, path, m, pr)).unwrap();
     }
     for (src, tgt) in &c.links {
         let is_file = c.files.iter().any(|(p, _)| p == tgt);
@@ -343,10 +347,10 @@ fn observe(c: &Case, n: usize) -> Obs {
             Some(idx) => {
                 let (path, m) = &c.files[idx];
                 let f = file_on_disk(&root, path);
-                std::fs::write(&f, source_of(idx, path, m, Some(&pr.1), has_state(c))).unwrap();
+                std::fs::write(&f, source_of(idx, path, m, Some(&pr.1))).unwrap();
                 let (_, pout, _) = run_entry(&entry, c.opt);
                 probes.push(probe_values(&pout));
-                std::fs::write(&f, source_of(idx, path, m, None, has_state(c))).unwrap();
+                std::fs::write(&f, source_of(idx, path, m, None)).unwrap();
             }
             None => probes.push(Vec::new()),
         }
@@ -367,7 +371,7 @@ fn input_source(c: &Case, k: usize, m: &Module, probe: Option<&Sp>) -> String {
         }
     }
     writeln!(s, "println(\"I:in{}\")", k).unwrap();
-    if has_state(c) {
+    {
         // advance the counter of every module this input imports under a qualifier and by its own path (the names
         // of symlinks and manifest entries are never paths of files), and print its new value
         for i in &m.imports {
@@ -376,8 +380,8 @@ fn input_source(c: &Case, k: usize, m: &Module, probe: Option<&Sp>) -> String {
                 Form::Alias(a) => *a,
                 _ => continue,
             };
-            if let Some(idx) = c.files.iter().position(|(p, m)| *p == i.path && m.fault == 0) {
-                writeln!(s, "println(\"B:{}\")\nprintln({}.zb{}())", fid(&i.path), nm(q), idx).unwrap();
+            if let Some(f) = c.files.iter().find(|(p, m)| *p == i.path && m.fault == 0).and_then(|(_, m)| state_fn(m)) {
+                writeln!(s, "println(\"B:{}\")\nprintln({}.{}())", fid(&i.path), nm(q), nm(f)).unwrap();
             }
         }
     }
@@ -1272,6 +1276,15 @@ fn random_case(rng: &mut Rng, n: usize, maxfiles: u64) -> Case {
 fn session_from(rng: &mut Rng, mut c: Case, n: usize) -> Case {
     let entry_imports: Vec<Import> = c.files[0].1.imports.clone();
     c.files.remove(0);
+    if rng.chance(3, 4) {
+        // mutable pub state: the counter first (the function below names it)
+        for (i, (_, m)) in c.files.iter_mut().enumerate() {
+            if m.fault == 0 {
+                m.defs.push(Def { name: STATE0 + 2 * i as Id + 1, is_pub: true });
+                m.defs.push(Def { name: STATE0 + 2 * i as Id, is_pub: true });
+            }
+        }
+    }
     let k = 2 + rng.below(3) as usize;
     let mut inputs: Vec<Module> = (0..k).map(|_| Module::default()).collect();
     for (j, imp) in entry_imports.iter().enumerate() {
@@ -1395,7 +1408,7 @@ fn session_from(rng: &mut Rng, mut c: Case, n: usize) -> Case {
                 quals.push(*a);
             }
             for (_, tm) in &c.files {
-                for d in &tm.defs {
+                for d in tm.defs.iter().filter(|d| d.name < STATE0) {
                     all.insert((at, Sp::Bare(d.name)));
                     for &q in &quals {
                         all.insert((at, Sp::Qual(q, d.name)));
